@@ -94,9 +94,12 @@ PROPS["C05"] = dict(
           "(a) with a consumer that reads one payload (single-response transport) and one that drains the response function (streaming "
           "transport), and (b) through gqlgen's own transports POST, GET, application/graphql, SSE (with and without keep-alive pings) and "
           "multipart/mixed via handler.Server.ServeHTTP with the request context cancelled at the point: ServeHTTP must return and no "
-          "transport goroutine (keep-alive, aggregator, deferred groups) may survive",
+          "transport goroutine (keep-alive, aggregator, deferred groups) may survive. "
+          "(c) over the websocket transport (both subprotocols, queries and subscriptions): at every cancellation point the client stops the "
+          "operation, goes away, or the server context is cancelled - or the operation completes and is stopped afterwards, optionally with "
+          "another operation started right behind - then the session ends: Websocket.Do returns and nothing of the connection stays alive",
     note="cancellation points are exhaustive per operation, operations are sampled (probe schema and random schemas drawn for the seed); "
-         "bounded time is only refuted by deadlock witnesses; websocket sessions are covered by C11's end-of-connection invariants, not here",
+         "bounded time is only refuted by deadlock witnesses; websocket sessions over arbitrary message sequences are C11's; here one operation per connection is driven through its cancellation points",
     technique="fault enumeration over cancellation points of rapid-generated operations; invariant oracle over goroutine dumps",
     rule="evaluation = one execution with one cancellation point; non-trivial = cancellation point k>=1 in an operation with a composite "
          "list of >=2 elements or with @defer; distinct by (query, plan seed, vector, k, before/after, hold, consumer) resp. (query, plan seed, vector, transport, k, before/after)",
